@@ -84,7 +84,9 @@ Fixpoint blk_srv_recv_run (junk : Z -> Z) (maxszx : Z) (t : blk_srv_tab) (l : li
 Record blk_rsp := { rs_etag : option Z; rs_arr : blk_arr }.
 (* lg_crcv: the ETag taken from the first block (None = etag_set 0), reassembly state
    (None = lg_crcv->initial) *)
-Record blk_crcv := { cr_etag : option Z; cr_st : option blk_rcv }.
+(* cr_restart: lg_crcv->initial == 2, the request was restarted from block 0 after an ETag change
+   and block 0 of the new representation has not arrived yet (/repo commit after c7934ae) *)
+Record blk_crcv := { cr_etag : option Z; cr_st : option blk_rcv; cr_restart : bool }.
 
 Definition blk_etag_eq (a b : option Z) : bool :=
   match a, b with
@@ -99,9 +101,12 @@ Definition blk_cli_recv (junk : Z -> Z) (c : blk_crcv) (r : blk_rsp)
   let chunk := blk_chunk (ba_szx a) in
   let data := if chunk <? len (ba_data a) then take chunk (ba_data a) else ba_data a in
   if negb ((ba_m a =? 1) || (0 <? len (ba_data a))) then
-    ({| cr_etag := None; cr_st := None |}, BoPass, false)
+    ({| cr_etag := None; cr_st := None; cr_restart := false |}, BoPass, false)
   else if (ba_m a =? 1) && negb (len data =? chunk) then
-    ({| cr_etag := None; cr_st := None |}, BoReject, false)
+    ({| cr_etag := None; cr_st := None; cr_restart := false |}, BoReject, false)
+  else if cr_restart c && negb (ba_num a =? 0) then
+    (* a late block of the pass that was given up: not used, the restart stays pending *)
+    (c, BoContinue, false)
   else
     (* if (lg_crcv->initial): take this block's ETag as the reference *)
     let ref_etag := match cr_st c with None => rs_etag r | Some _ => cr_etag c end in
@@ -109,15 +114,15 @@ Definition blk_cli_recv (junk : Z -> Z) (c : blk_crcv) (r : blk_rsp)
     | Some _ =>
         if blk_etag_eq (rs_etag r) ref_etag then
           let '(st', o) := blk_cli_step junk (cr_st c) a in
-          ({| cr_etag := ref_etag; cr_st := st' |}, o, false)
-        else (* body changed: initial = 1, body freed, request block 0 again; skip *)
-          ({| cr_etag := ref_etag; cr_st := None |}, BoContinue, true)
+          ({| cr_etag := ref_etag; cr_st := st'; cr_restart := false |}, o, false)
+        else (* body changed: initial = 2, body freed, request block 0 again; skip *)
+          ({| cr_etag := ref_etag; cr_st := None; cr_restart := true |}, BoContinue, true)
     | None =>
         match ref_etag with
         | Some _ => (c, BoFail, false)             (* "Not all blocks have ETag option" *)
         | None =>
             let '(st', o) := blk_cli_step junk (cr_st c) a in
-            ({| cr_etag := None; cr_st := st' |}, o, false)
+            ({| cr_etag := None; cr_st := st'; cr_restart := false |}, o, false)
         end
     end.
 
